@@ -16,7 +16,10 @@ type parserFacts struct {
 	c     *Ctx
 	p     *Program
 	fn    *ssa.Function
-	views map[*ssa.Function]*FnView
+	// region: ParseData and the named functions of package config it (transitively) calls - a parser split into helpers
+	// (parseKey, parseAnalog, ...) is analysed as one unit
+	region map[*ssa.Function]bool
+	views  map[*ssa.Function]*FnView
 	// composite literals of the config types, by type name
 	lits map[string][]*ssa.Alloc
 	err  error
@@ -39,6 +42,31 @@ func newParserFacts(c *Ctx) *parserFacts {
 		return pf
 	}
 	c.Fn(shortFn(pf.fn))
+	pf.region = map[*ssa.Function]bool{}
+	var grow func(fn *ssa.Function)
+	grow = func(fn *ssa.Function) {
+		if pf.region[fn] {
+			return
+		}
+		pf.region[fn] = true
+		var scan func(f *ssa.Function)
+		scan = func(f *ssa.Function) {
+			for _, b := range f.Blocks {
+				for _, in := range b.Instrs {
+					if ci, ok := in.(ssa.CallInstruction); ok {
+						if callee := ci.Common().StaticCallee(); callee != nil && callee.Parent() == nil && len(callee.Blocks) > 0 && callee.Pkg != nil && callee.Pkg.Pkg.Path() == pkgConfig {
+							grow(callee)
+						}
+					}
+				}
+			}
+			for _, af := range f.AnonFuncs {
+				scan(af)
+			}
+		}
+		scan(fn)
+	}
+	grow(pf.fn)
 	for _, fn := range c.P.Funcs {
 		for _, b := range fn.Blocks {
 			for _, in := range b.Instrs {
@@ -73,16 +101,59 @@ func (pf *parserFacts) view(fn *ssa.Function) *FnView {
 	return v
 }
 
-// literals returns the composite literals of config.<typ> built inside ParseData (incl. closures).
+// inRegionKey: does the lits key "<typ>@<func>" name a function of the parser region?
+func (pf *parserFacts) inRegionKey(k string) bool {
+	_, fname, _ := strings.Cut(k, "@")
+	for f := range pf.region {
+		if shortFn(f) == fname {
+			return true
+		}
+	}
+	return false
+}
+
+// regionFuncs: the parser region in a deterministic order, ParseData first, closures included.
+func (pf *parserFacts) regionFuncs() []*ssa.Function {
+	var out []*ssa.Function
+	for _, f := range pf.p.Funcs {
+		if pf.region[topFunc(f)] {
+			out = append(out, f)
+		}
+	}
+	sort.SliceStable(out, func(i, j int) bool { return out[i] == pf.fn && out[j] != pf.fn })
+	return out
+}
+
+// regionBlocks: all blocks of the parser region.
+func (pf *parserFacts) regionBlocks() []*ssa.BasicBlock {
+	var out []*ssa.BasicBlock
+	for _, f := range pf.regionFuncs() {
+		out = append(out, f.Blocks...)
+	}
+	return out
+}
+
+// literals returns the composite literals of config.<typ> built inside the parser region (ParseData, its helpers, closures).
 func (pf *parserFacts) literals(typ string) []*ssa.Alloc {
-	return pf.lits[typ+"@"+shortFn(pf.fn)]
+	var keys []string
+	for k := range pf.lits {
+		if strings.HasPrefix(k, typ+"@") && pf.inRegionKey(k) {
+			keys = append(keys, k)
+		}
+	}
+	sort.Strings(keys)
+	var out []*ssa.Alloc
+	for _, k := range keys {
+		out = append(out, pf.lits[k]...)
+	}
+	return out
 }
 
 // foreignLiterals: literals of config.<typ> built anywhere else in non-test code.
 func (pf *parserFacts) foreignLiterals(typ string) []*ssa.Alloc {
 	var out []*ssa.Alloc
 	for k, v := range pf.lits {
-		if strings.HasPrefix(k, typ+"@") && k != typ+"@"+shortFn(pf.fn) {
+		if strings.HasPrefix(k, typ+"@") && !pf.inRegionKey(k) {
 			out = append(out, v...)
 		}
 	}
@@ -177,12 +248,54 @@ func (pf *parserFacts) proveRange(v ssa.Value, at *ssa.BasicBlock, lo, hi int64,
 				}
 			}
 		}
+	case *ssa.Parameter:
+		// a helper's parameter: every static call site must pass a value in range (under the call site's guards)
+		if sites, ok := staticCallSites(pf.p, x.Parent()); ok {
+			idx := paramIndex(x)
+			var whys []string
+			for _, ci := range sites {
+				if idx < 0 || idx >= len(ci.Common().Args) {
+					return false, "call site with fewer arguments"
+				}
+				saved := pf.extra
+				pf.extra = nil
+				ok, why := pf.proveRange(ci.Common().Args[idx], ci.Block(), lo, hi, depth+1)
+				pf.extra = saved
+				if !ok {
+					return false, fmt.Sprintf("argument at %s: %s", pf.p.Pos(ci.Pos()), why)
+				}
+				whys = append(whys, why)
+			}
+			return true, "every call site passes a value in range: " + strings.Join(whys, " | ")
+		}
+	case *ssa.Call:
+		if callee := x.Call.StaticCallee(); callee != nil && pf.p.OwnedFunc(callee) && callee.Blocks != nil && callee.Signature.Results().Len() == 1 {
+			okAll, n := true, 0
+			var why string
+			for _, b := range callee.Blocks {
+				if r, isRet := b.Instrs[len(b.Instrs)-1].(*ssa.Return); isRet && b != callee.Recover {
+					n++
+					if ok, w := pf.proveRange(r.Results[0], b, lo, hi, depth+1); !ok {
+						okAll, why = false, w
+					}
+				}
+			}
+			if okAll && n > 0 {
+				return true, "every return of " + callee.Name() + " is in range"
+			}
+			if n > 0 {
+				return false, "result of " + callee.Name() + ": " + why
+			}
+		}
 	case *ssa.Extract:
 		if call, ok := x.Tuple.(*ssa.Call); ok {
 			if callee := call.Call.StaticCallee(); callee != nil && pf.p.OwnedFunc(callee) && callee.Blocks != nil {
 				okAll := true
 				var why string
 				for _, b := range callee.Blocks {
+					if b == callee.Recover {
+						continue
+					}
 					if r, isRet := b.Instrs[len(b.Instrs)-1].(*ssa.Return); isRet && x.Index < len(r.Results) {
 						ok, w := pf.proveRange(r.Results[x.Index], b, lo, hi, depth+1)
 						if !ok {
@@ -351,7 +464,7 @@ func (pf *parserFacts) fieldStores(typ string) []fieldStore {
 	}
 	var keys []string
 	for k := range pf.lits {
-		if strings.HasSuffix(k, "@"+shortFn(pf.fn)) {
+		if pf.inRegionKey(k) {
 			keys = append(keys, k)
 		}
 	}
@@ -401,17 +514,28 @@ func (pf *parserFacts) checkBounds(typ, field string) []boundResult {
 
 // litContext names the parser case a literal belongs to (mapping type constant), for stable keys.
 func (pf *parserFacts) litContext(lit *ssa.Alloc) string {
-	vw := pf.view(lit.Parent())
-	for _, a := range vw.GuardsAt(lit.Block()) {
-		op, x, y, ok := normAtom(a)
-		if !ok || op != "==" {
-			continue
+	at := lit.Block()
+	for depth := 0; depth < 4 && at != nil; depth++ {
+		vw := pf.view(at.Parent())
+		for _, a := range vw.GuardsAt(at) {
+			op, x, y, ok := normAtom(a)
+			if !ok || op != "==" {
+				continue
+			}
+			if _, isC := x.IsConst(); isC {
+				x, y = y, x
+			}
+			if s, isS := y.IsStringConst(); isS {
+				return s
+			}
 		}
-		if _, isC := x.IsConst(); isC {
-			x, y = y, x
-		}
-		if s, isS := y.IsStringConst(); isS {
-			return s
+		// a per-type helper: the case is selected at its only call site
+		fn := topFunc(at.Parent())
+		at = nil
+		if fn != pf.fn && pf.region[fn] {
+			if sites, ok := staticCallSites(pf.p, fn); ok && len(sites) == 1 {
+				at = sites[0].Block()
+			}
 		}
 	}
 	// Key literals: distinguish numeric / named note
